@@ -220,13 +220,15 @@ prop( 'C01', [ 'T-TYPES', 'L-AGREE', 'L-CODEC', 'T-SEGMENTS', 'T-NCP', 'A-OFFSET
       technique='layout IR extraction from both the grammar-construction code (abstract interpretation) and the produce() ASTs, sequence '
                 'acceptance matching; spec-table comparison; linear normalisation' )
 
-prop( 'C14', [ 'L-SPEC', 'K-FORWARDS', 'L-AGREE', 'L-CODEC', 'T-TYPES', 'T-SEGMENTS', 'T-NCP', 'A-OFFSETS', 'G-FRAME' ],
+prop( 'C14', [ 'L-SPEC', 'K-FORWARDS', 'L-AGREE', 'L-CODEC', 'T-TYPES', 'T-SEGMENTS', 'T-NCP', 'A-OFFSETS', 'G-FRAME',
+               'S-STATUS', 'D-VALIDATE', 'W-ATTR', 'T-ALLOWED', 'T-ATTRKEYS', 'D-TYPE', 'X-SERVICES', 'P-REPLYBIT' ],
       decides='spec-layout clause.  L-SPEC: for the messages an independent Logix client uses (Register Session, SendRRData/SendUnitData with '
               'null-address/unconnected and connection-id/connected-data items, Unconnected Send, Forward Open small and large, Forward '
               'Close, Read/Write Tag [Fragmented], Multiple Service Packet, Get/Set Attribute, List Identity item) the parser layout '
               'extracted from cpppo accepts the layout written down independently from the CIP/Logix manuals field for field (format and '
               'field identity), and every reply-producer variant is one of the spec reply layouts; K-FORWARDS: the key stored by '
               'forward_open, the key UCMM.request builds for connected data and the prefix forward_close compares are the same '
-              '(peer host, peer port, O->T connection id) triple; plus the shared C01 layout rules.',
+              '(peer host, peer port, O->T connection id) triple; plus the shared C01 layout rules and the server-side clauses an independent client '
+              'observes (documented error statuses S-STATUS/D-VALIDATE, who-may-write, type table, attribute allocation, reply type, reply bit).',
       not_decided='a live pylogix session (values, statuses, timing) - the spec tables are the static stand-in for the reference encoder.',
       technique='spec-table vs extracted-layout comparison; key-shape agreement across call sites' )
